@@ -71,7 +71,7 @@ def write_replay(pid, payload):
     return path
 
 
-def proof_stage(pid):
+def proof_stage(pid, tier="quick"):
     """-> (ok, info dict)"""
     info = {}
     ok, log = coqrun.ensure_built()
@@ -89,7 +89,20 @@ def proof_stage(pid):
     closed = [t for t in thms if t[1].startswith("Closed under the global context")]
     info["obligations"] = len(thms)
     info["discharged"] = len(closed) if not bad else 0
-    return ok and ok2 and not bad and len(thms) > 0 and len(closed) == len(thms), info
+    chk_ok = True
+    if tier == "thorough":
+        # independent re-check of the compiled property module and everything it depends on
+        import subprocess
+        try:
+            p = subprocess.run(["coqchk", "-o", "-silent", "-Q", coqrun.COQDIR, "Tawazi", "Tawazi.Properties." + pid], capture_output=True, text=True, timeout=1800, cwd=coqrun.COQDIR)
+            out = p.stdout + p.stderr
+            info["coqchk"] = out[-600:]
+            chk_ok = p.returncode == 0 and "Axioms: <none>" in out
+        except Exception as e:  # noqa: BLE001
+            info["coqchk"] = "coqchk failed to run: %s" % e
+            chk_ok = False
+        info["coqchk_ok"] = chk_ok
+    return ok and ok2 and not bad and len(thms) > 0 and len(closed) == len(thms) and chk_ok, info
 
 
 def main(argv=None):
@@ -116,7 +129,7 @@ def main(argv=None):
     pinfo = {}
     proof_ok = True
     if not args.no_proof:
-        proof_ok, pinfo = proof_stage(pid)
+        proof_ok, pinfo = proof_stage(pid, tier)
     try:
         for eng in spec["engines"]:
             eng(pid, tier, seed, res)
@@ -170,6 +183,7 @@ def main(argv=None):
         checker_cmd="make -C /verif/coq (coq_makefile, full .vo build) && coqc -Q /verif/coq Tawazi coq/Properties/%s.v (Print Assumptions); correspondence: coqc on generated build/*.v with Eval vm_compute" % pid,
         trusted_base=TRUSTED_BASE + spec.get("trusted_extra", []),
         theorems=pinfo.get("theorems", []),
+        coqchk=pinfo.get("coqchk"),
         evaluations=res.evaluations,
         distinct_nontrivial=len(res.distinct),
         rule=spec.get("rule", ""),
